@@ -325,3 +325,16 @@ def run(repo: Repo, rep: Report, tier: str) -> None:
     # ---------------- R14 --------------------------------------------------------------
     _borrow6(repo, rep, "C10", "C10-R3", "C06-R14", "two entities whose conditions differ (`a && b` against `a || b`, different comparators or operands) never share one decider: the "
              "common-subexpression key of a decider reads every field of every condition row, and its output", select=lambda o: "IRDecider" in o.construct, floor=6)
+
+    # ---------------- R15 --------------------------------------------------------------
+    rep.rule("C06-R15", "an assignment to `name.property` either lands on a placed entity or is reported: the last-resort branch of lower_assign_stmt that emits the property write under "
+             "`<name> in entity_refs` has an error on the other arm — a silent skip leaves the entity without the condition the program assigned")
+    las = repo.func("StatementLowerer.lower_assign_stmt")
+    clas = canon(las)
+    sites15 = [n for n in walk_local(las.node) if isinstance(n, ast.If) and clas.text(n.test) == "stmt.target.object_name in self.parent.entity_refs"
+               and any(isinstance(c, ast.Call) and call_name(c) == "IREntityPropWrite" for b in n.body for c in ast.walk(b))]
+    rep.floor("C06-R15", "property-write branches keyed on entity_refs membership", len(sites15), 1)
+    for i15, n in enumerate(sites15):
+        reported = any(isinstance(c, ast.Call) and call_name(c) in ("_error", "error") for b in n.orelse for c in ast.walk(b))
+        rep.check(reported, "C06-R15", f"lower_assign_stmt: property write #{i15 + 1} reports a target that is no placed entity", "error on the other arm" if reported else
+                  "no else branch: `func make(int x) { return place(\"small-lamp\", x, 0); } Entity l = make(3); l.enable = a > 0;` compiles and the lamp has no condition", las.loc(n))
